@@ -1,3 +1,353 @@
+/* C19 --- DAG files are well formed and survive dump / read / convert (engine E3, see dag_sim.h).
+ *
+ * Per case (program, timing, section opening, W, schedule, number of file names, record-time options):
+ *   roundtrip:     dr_dump() writes build/c19/scratch/w<k>/dr.dag; the file is parsed here byte by byte (header, n, m,
+ *                  start clock, workers, size) and compared with the position-independent DAG made from the same
+ *                  in-memory graph; dr_read_dag() of the file gives T and E byte-identical to what was dumped and an
+ *                  equal string table (the two pointer members of the table excluded)
+ *   structure:     an independent validator over dr_pi_dag (offsets, kinds, tree shape, edge order and ranges,
+ *                  reachability in the tree and along edges, string indices) - on the dumped and on every converted DAG
+ *   content:       every interval node of the file is the interval the simulator executed (kind, worker, clocks, work,
+ *                  file names and lines of both ends)
+ *   chronological: the library's dr_pi_dag_chronological_traverse with a counting traverser
+ *   shrink-totals: dr_copy_pi_dag under each of the 18 conversion settings; work, critical path (recomputed along the
+ *                  explicit edges), node and edge totals of the converted DAG == those of the DAG it was made from;
+ *                  converted DAGs are also validated, traversed, and (when they differ from the input) written with
+ *                  dr_gen_pi_dag and read back
+ * Record-time settings that leave the very same bytes in T/E/S as an earlier setting of the same execution are not
+ * pushed through the file checks again (everything downstream is a function of those bytes).
+ * 2..4 file names: first timing only; no-steal schedule x all record-time settings, single-steal schedules x the two
+ * extreme settings (nothing contracted / everything).
+ */
 #include "dag_sim.h"
-static void component_case(void) {}
-int main(int argc, char ** argv) { return dag_main(argc, argv, "C19", "c19", "E3", 1, 1, "stub"); }
+
+typedef struct { unsigned long long cmax, umin; long cc; } conv_t;
+static conv_t CONV[18]; static int NCONV;
+
+/* ------------------------------------------------------------------ independent helpers over dr_pi_dag */
+static int is_leaf(const dr_pi_dag_node * x) { return x->info.kind < dr_dag_node_kind_section || x->subgraphs_begin_offset == x->subgraphs_end_offset; }
+static const char * pi_str(const dr_pi_dag * G, long idx) { return (idx >= 0 && idx < G->S->n) ? G->S->C + G->S->I[idx] : NULL; }
+
+#define MAXN 256          /* nodes / edges of one DAG in this enumeration (a program has < 20 intervals) */
+typedef struct { long work, crit, nodes[4], edges[EK_MAX], root_work, root_crit, root_nodes[4]; int ok; } totals_t;
+static const int EKMAP[EK_MAX] = { dr_dag_edge_kind_end, dr_dag_edge_kind_create, dr_dag_edge_kind_create_cont, dr_dag_edge_kind_wait_cont, dr_dag_edge_kind_other_cont };
+static const int NKMAP[4] = { dr_dag_node_kind_create_task, dr_dag_node_kind_wait_tasks, dr_dag_node_kind_other, dr_dag_node_kind_end_task };
+/* totals as a reader of the file sees them: leaves (intervals and contracted subgraphs) carry work and summaries,
+   explicit edges connect them; the critical path is the heaviest path along explicit edges, a contracted subgraph
+   weighing its own t_inf.  Needs a structurally valid G. */
+static void pi_totals(const dr_pi_dag * G, totals_t * t) {
+  memset(t, 0, sizeof *t);
+  long n = G->n, m = G->m;
+  static long dist[MAXN], order[MAXN]; static int indeg[MAXN]; long no = 0, nleaf = 0;
+  memset(dist, 0, sizeof(long) * n); memset(indeg, 0, sizeof(int) * n);
+  for (long i = 0; i < n; i++) {
+    const dr_pi_dag_node * x = &G->T[i];
+    if (!is_leaf(x)) continue;
+    nleaf++; t->work += (long)x->info.t_1;
+    for (int k = 0; k < 4; k++) t->nodes[k] += x->info.logical_node_counts[NKMAP[k]];
+    if (x->info.kind >= dr_dag_node_kind_section) for (int k = 0; k < EK_MAX; k++) t->edges[k] += x->info.logical_edge_counts[EKMAP[k]];
+  }
+  for (long j = 0; j < m; j++) { for (int k = 0; k < EK_MAX; k++) if ((int)G->E[j].kind == EKMAP[k]) t->edges[k]++; indeg[G->E[j].v]++; }
+  for (long i = 0; i < n; i++) if (is_leaf(&G->T[i]) && indeg[i] == 0) order[no++] = i;
+  for (long h = 0; h < no; h++) {
+    long u = order[h]; dist[u] += (long)G->T[u].info.t_inf; if (dist[u] > t->crit) t->crit = dist[u];
+    for (long j = G->T[u].edges_begin; j < G->T[u].edges_end; j++) { long v = G->E[j].v; if (dist[v] < dist[u]) dist[v] = dist[u]; if (--indeg[v] == 0) order[no++] = v; }
+  }
+  t->ok = no == nleaf;                                 /* otherwise the explicit edges have a cycle */
+  t->root_work = (long)G->T[0].info.t_1; t->root_crit = (long)G->T[0].info.t_inf;
+  for (int k = 0; k < 4; k++) t->root_nodes[k] = G->T[0].info.logical_node_counts[NKMAP[k]];
+}
+
+/* returns 0 when G is too broken for the later steps */
+static int validate(const dr_pi_dag * G, const char * which, const char * extra) {
+  char cls[100]; long n = G->n, m = G->m; int ok = 1;
+#define BAD(name, ...) do { snprintf(cls, sizeof cls, "structure:%s:%s", which, name); found(cls, extra, __VA_ARGS__); ok = 0; } while (0)
+  if (n <= 0 || m < 0 || n > MAXN || m > MAXN) { BAD("size", "n = %ld, m = %ld", n, m); return 0; }
+  if (G->T[0].info.kind != dr_dag_node_kind_task) BAD("root-kind", "node 0 has kind %d, not a task", G->T[0].info.kind);
+  static int refs[MAXN]; memset(refs, 0, sizeof(int) * n);
+  for (long i = 0; i < n && ok; i++) {
+    const dr_pi_dag_node * x = &G->T[i]; int k = x->info.kind;
+    if (k < 0 || k > dr_dag_node_kind_task) { BAD("node-kind", "node %ld has kind %d", i, k); break; }
+    if (x->edges_begin < 0 || x->edges_begin > x->edges_end || x->edges_end > m) { BAD("edge-range", "node %ld has edge range [%ld,%ld), m = %ld", i, x->edges_begin, x->edges_end, m); break; }
+    if (k == dr_dag_node_kind_create_task) {
+      long c = i + x->child_offset;
+      if (x->child_offset <= 0 || c >= n) { BAD("child-offset", "create node %ld has child offset %ld, n = %ld", i, x->child_offset, n); break; }
+      if (G->T[c].info.kind != dr_dag_node_kind_task) { BAD("child-kind", "child of create node %ld has kind %d", i, G->T[c].info.kind); break; }
+      refs[c]++;
+    } else if (k >= dr_dag_node_kind_section) {
+      long b = x->subgraphs_begin_offset, e = x->subgraphs_end_offset;
+      if (b > e) { BAD("subgraph-range", "node %ld has subgraph offsets [%ld,%ld)", i, b, e); break; }
+      if (b < e) {
+	if (b <= 0 || i + e > n) { BAD("subgraph-offset", "node %ld (kind %d) has subgraph offsets [%ld,%ld), n = %ld", i, k, b, e, n); break; }
+	for (long c = i + b; c < i + e; c++) {
+	  int ck = G->T[c].info.kind, last = c == i + e - 1, fine;
+	  refs[c]++;
+	  if (k == dr_dag_node_kind_section) fine = ck == dr_dag_node_kind_create_task || ck == dr_dag_node_kind_other || ck == dr_dag_node_kind_section || (ck == dr_dag_node_kind_wait_tasks && last);
+	  else fine = ck == dr_dag_node_kind_section || ck == dr_dag_node_kind_other || (ck == dr_dag_node_kind_end_task && last);
+	  if (!fine || (last && ck != (k == dr_dag_node_kind_section ? dr_dag_node_kind_wait_tasks : dr_dag_node_kind_end_task)))
+	    { BAD("subgraph-grammar", "node %ld (kind %d) has child %ld of kind %d%s", i, k, c, ck, last ? " as its last child" : ""); break; }
+	}
+      } else if (i + b < 0 || i + b > n) {
+	/* an empty range refers to no node, yet its offsets are data a reader adds to a node pointer */
+	BAD("empty-range-outside", "contracted node %ld keeps subgraph offsets [%ld,%ld) that point outside the DAG (n = %ld)", i, b, e, n);
+	ok = 1;                                        /* harmless for the later steps */
+      }
+    }
+    for (int q = 0; q < 2; q++) { long fi = q ? x->info.end.pos.file_idx : x->info.start.pos.file_idx; if (fi < 0 || fi >= G->S->n) { BAD("file-index", "node %ld has file index %ld, table has %ld strings", i, fi, G->S->n); break; } }
+    if (x->info.start.pos.file || x->info.end.pos.file) { BAD("pointer-in-file", "node %ld carries an in-memory file-name pointer", i); ok = 1; }
+  }
+  if (ok) for (long i = 1; i < n; i++) if (refs[i] != 1) { BAD("tree", "node %ld is the child of %d nodes", i, refs[i]); break; }
+  if (ok && refs[0]) BAD("tree", "the root is somebody's child");
+  if (!ok) return 0;
+  /* edges */
+  long cnt_total = 0;
+  for (long j = 0; j < m; j++) {
+    const dr_pi_dag_edge * e = &G->E[j];
+    if (e->u < 0 || e->u >= n || e->v < 0 || e->v >= n) { BAD("edge-endpoint", "edge %ld is %ld -> %ld, n = %ld", j, e->u, e->v, n); return 0; }
+    if ((int)e->kind < 0 || e->kind >= dr_dag_edge_kind_max) { BAD("edge-kind", "edge %ld has kind %d", j, e->kind); return 0; }
+    if (j && G->E[j - 1].u > e->u) { BAD("edge-order", "edges %ld and %ld are not sorted by source (%ld > %ld)", j - 1, j, G->E[j - 1].u, e->u); return 0; }
+    if (!(G->T[e->u].edges_begin <= j && j < G->T[e->u].edges_end)) { BAD("edge-range", "edge %ld (from %ld) lies outside its source's range [%ld,%ld)", j, e->u, G->T[e->u].edges_begin, G->T[e->u].edges_end); return 0; }
+    if (!is_leaf(&G->T[e->u]) || !is_leaf(&G->T[e->v])) { BAD("edge-endpoint-not-leaf", "edge %ld joins %ld -> %ld, one of which has materialised children", j, e->u, e->v); return 0; }
+  }
+  for (long i = 0; i < n; i++) cnt_total += G->T[i].edges_end - G->T[i].edges_begin;
+  if (cnt_total != m) { BAD("edge-range", "the edge ranges of all nodes cover %ld edges, m = %ld", cnt_total, m); return 0; }
+  /* reachability: in the tree from the root, along edges from the first leaf */
+  {
+    static char seen[MAXN]; static long stk[2 * MAXN + 1]; long sp = 0; memset(seen, 0, n);
+    stk[sp++] = 0; seen[0] = 1;
+    while (sp) {
+      long i = stk[--sp]; const dr_pi_dag_node * x = &G->T[i];
+      if (x->info.kind == dr_dag_node_kind_create_task) { long c = i + x->child_offset; if (!seen[c]) { seen[c] = 1; stk[sp++] = c; } }
+      else if (x->info.kind >= dr_dag_node_kind_section) for (long c = i + x->subgraphs_begin_offset; c < i + x->subgraphs_end_offset; c++) if (!seen[c]) { seen[c] = 1; stk[sp++] = c; }
+    }
+    for (long i = 0; i < n; i++) if (!seen[i]) { BAD("unreachable-in-tree", "node %ld is not reachable from the root", i); break; }
+    memset(seen, 0, n);
+    long f = 0; while (!is_leaf(&G->T[f])) f += G->T[f].subgraphs_begin_offset;
+    sp = 0; stk[sp++] = f; seen[f] = 1;
+    while (sp) { long i = stk[--sp]; for (long j = G->T[i].edges_begin; j < G->T[i].edges_end; j++) { long v = G->E[j].v; if (!seen[v]) { seen[v] = 1; stk[sp++] = v; } } }
+    for (long i = 0; i < n; i++) if (is_leaf(&G->T[i]) && !seen[i]) { BAD("unreachable-by-edges", "leaf %ld (kind %d) cannot be reached from the first leaf %ld along edges", i, G->T[i].info.kind, f); break; }
+  }
+  /* string table: distinct, all used */
+  {
+    long sn = G->S->n; int used[16] = { 0 };
+    if (sn <= 0 || sn > 16) { BAD("string-table", "%ld strings", sn); return ok; }
+    for (long a = 0; a < sn; a++) for (long b = a + 1; b < sn; b++) if (!strcmp(pi_str(G, a), pi_str(G, b))) { BAD("string-table-duplicate", "strings %ld and %ld are both \"%s\"", a, b, pi_str(G, a)); }
+    for (long i = 0; i < n; i++) { used[G->T[i].info.start.pos.file_idx] = 1; used[G->T[i].info.end.pos.file_idx] = 1; }
+    for (long a = 0; a < sn; a++) if (!used[a]) { BAD("string-table-unused", "string %ld \"%s\" is used by no node", a, pi_str(G, a)); }
+  }
+#undef BAD
+  return ok;
+}
+
+/* counting traverser */
+typedef struct { void (*process_event)(chronological_traverser *, dr_event); const dr_pi_dag * G; int * cnt[4]; long n_running, n_ready, events; dr_clock_t last_t; int backwards, bad_node; } counter_t;
+static void count_event(chronological_traverser * ct, dr_event ev) {
+  counter_t * c = (counter_t *)ct; long i = ev.u - c->G->T;
+  c->events++;
+  if (i < 0 || i >= c->G->n || (int)ev.kind < 0 || ev.kind > dr_event_kind_end) { c->bad_node = 1; return; }
+  c->cnt[ev.kind][i]++;
+  if (ev.t < c->last_t) c->backwards++; c->last_t = ev.t;
+  switch (ev.kind) { case dr_event_kind_ready: c->n_ready++; break; case dr_event_kind_start: c->n_running++; break; case dr_event_kind_last_start: c->n_ready--; break; case dr_event_kind_end: c->n_running--; break; }
+}
+static void chronological(dr_pi_dag * G, const char * which, const char * extra) {
+  char cls[100]; counter_t c; memset(&c, 0, sizeof c); c.process_event = count_event; c.G = G;
+  static int cntbuf[4][MAXN]; if (G->n > MAXN) return;
+  for (int k = 0; k < 4; k++) { c.cnt[k] = cntbuf[k]; memset(cntbuf[k], 0, sizeof(int) * G->n); }
+  dr_pi_dag_chronological_traverse(G, (chronological_traverser *)&c);
+#define BAD(name, ...) do { snprintf(cls, sizeof cls, "chronological:%s:%s", which, name); found(cls, extra, __VA_ARGS__); } while (0)
+  if (c.bad_node) BAD("bad-event", "an event names a node outside the DAG");
+  for (long i = 0; i < G->n; i++) {
+    int want = is_leaf(&G->T[i]);
+    if (c.cnt[dr_event_kind_start][i] != want || c.cnt[dr_event_kind_end][i] != want || c.cnt[dr_event_kind_ready][i] != want || c.cnt[dr_event_kind_last_start][i] != want) {
+      BAD("start-end-count", "node %ld (kind %d, %s): ready %d start %d last_start %d end %d time(s), expected %d each", i, G->T[i].info.kind, want ? "leaf" : "inner",
+	  c.cnt[0][i], c.cnt[1][i], c.cnt[2][i], c.cnt[3][i], want); break;
+    }
+  }
+  if (c.n_running || c.n_ready) BAD("not-drained", "the replay finishes with %ld running and %ld ready", c.n_running, c.n_ready);
+  if (c.backwards) BAD("time-goes-backwards", "%d events are delivered with a time stamp smaller than their predecessor's", c.backwards);
+#undef BAD
+}
+
+static unsigned long long fnv(unsigned long long h, const void * p, size_t n) {
+  const unsigned char * b = p; size_t i = 0;
+  for (; i + 8 <= n; i += 8) { unsigned long long w; memcpy(&w, b + i, 8); h = (h ^ w) * 1099511628211ULL; h ^= h >> 29; }
+  for (; i < n; i++) { h ^= b[i]; h *= 1099511628211ULL; }
+  return h;
+}
+static unsigned long long pi_hash(const dr_pi_dag * G) {
+  unsigned long long h = 1469598103934665603ULL;
+  h = fnv(h, &G->n, sizeof G->n); h = fnv(h, &G->m, sizeof G->m); h = fnv(h, &G->num_workers, sizeof G->num_workers);
+  h = fnv(h, G->T, sizeof(dr_pi_dag_node) * G->n); h = fnv(h, G->E, sizeof(dr_pi_dag_edge) * G->m);
+  h = fnv(h, &G->S->n, sizeof G->S->n); h = fnv(h, G->S->I, sizeof(long) * G->S->n); h = fnv(h, G->S->C, G->S->sz - sizeof(dr_pi_string_table) - sizeof(long) * G->S->n);
+  return h;
+}
+static int same_strings(const dr_pi_dag * A, const dr_pi_dag * B) {
+  if (A->S->n != B->S->n || A->S->sz != B->S->sz) return 0;
+  for (long i = 0; i < A->S->n; i++) if (A->S->I[i] != B->S->I[i] || strcmp(pi_str(A, i), pi_str(B, i))) return 0;
+  return 1;
+}
+static void unread_dag(dr_pi_dag * G, size_t file_sz) {          /* dr_read_dag maps the file and never unmaps it */
+  size_t hdr = DAG_RECORDER_HEADER_LEN + 4 * sizeof(long);
+  munmap((char *)G->T - hdr, file_sz); free(G);
+}
+static size_t file_size(const char * fn) { struct stat sb; return stat(fn, &sb) ? 0 : (size_t)sb.st_size; }
+
+/* file at `fn' must hold exactly G (checked byte by byte by this code), and dr_read_dag must return the same */
+static dr_pi_dag * roundtrip(const dr_pi_dag * G, const char * fn, const char * which, const char * extra, size_t * fszp) {
+  char cls[100]; *fszp = 0;
+#define BAD(name, ...) do { snprintf(cls, sizeof cls, "roundtrip:%s:%s", which, name); found(cls, extra, __VA_ARGS__); } while (0)
+  static unsigned char buf[1 << 17];
+  int fd = open(fn, O_RDONLY); if (fd < 0) { BAD("no-file", "%s was not written", fn); return NULL; }
+  ssize_t r = read(fd, buf, sizeof buf); close(fd);
+  size_t hdr = DAG_RECORDER_HEADER_LEN + 4 * sizeof(long), tsz = sizeof(dr_pi_dag_node) * G->n, esz = sizeof(dr_pi_dag_edge) * G->m;
+  size_t want = hdr + tsz + esz + G->S->sz;
+  if (r < 0 || (size_t)r != want) { BAD("file-size", "the file has %ld bytes, header + %ld nodes + %ld edges + string table need %zu", (long)r, G->n, G->m, want); return NULL; }
+  long h[4]; memcpy(h, buf + DAG_RECORDER_HEADER_LEN, sizeof h);
+  if (memcmp(buf, DAG_RECORDER_HEADER, DAG_RECORDER_HEADER_LEN)) BAD("header", "the file does not start with the format header");
+  if (h[0] != G->n || h[1] != G->m || h[2] != G->start_clock || h[3] != G->num_workers) BAD("header-fields", "file says n=%ld m=%ld start=%ld workers=%ld, dumped n=%ld m=%ld start=%ld workers=%ld", h[0], h[1], h[2], h[3], G->n, G->m, G->start_clock, G->num_workers);
+  if (memcmp(buf + hdr, G->T, tsz)) BAD("raw-nodes", "the node array in the file differs from the one dumped");
+  if (memcmp(buf + hdr + tsz, G->E, esz)) BAD("raw-edges", "the edge array in the file differs from the one dumped");
+  {
+    const dr_pi_string_table * fs = (const dr_pi_string_table *)(buf + hdr + tsz + esz); dr_pi_string_table tmp; memcpy(&tmp, fs, sizeof tmp);
+    size_t off = sizeof(dr_pi_string_table);
+    if (tmp.n != G->S->n || tmp.sz != G->S->sz || memcmp((const char *)fs + off, G->S->I, G->S->sz - off)) BAD("raw-strings", "the string table in the file differs from the one dumped");
+  }
+  dr_pi_dag * R = dr_read_dag(fn);
+  if (!R) { BAD("read-fails", "dr_read_dag returns null for the file just written"); return NULL; }
+  *fszp = want;
+  if (R->n != G->n || R->m != G->m || R->start_clock != G->start_clock || R->num_workers != G->num_workers) BAD("read-header", "dr_read_dag: n=%ld m=%ld start=%ld workers=%ld, dumped n=%ld m=%ld start=%ld workers=%ld", R->n, R->m, R->start_clock, R->num_workers, G->n, G->m, G->start_clock, G->num_workers);
+  else {
+    if (memcmp(R->T, G->T, tsz)) BAD("read-nodes", "T read back differs from T dumped");
+    if (memcmp(R->E, G->E, esz)) BAD("read-edges", "E read back differs from E dumped");
+    if (!same_strings(R, G)) BAD("read-strings", "the string table read back differs from the one dumped");
+  }
+  return R;
+#undef BAD
+}
+/* Files are removed as soon as they have been read back and are created afresh by the next dump: rewriting an
+   existing file makes ext4 flush it to disk at every close (its replace-via-truncate heuristic), which costs
+   milliseconds per case; a short-lived new file never leaves the page cache. */
+
+/* every interval node in the file is an interval the simulator executed */
+static void content(const dr_pi_dag * G) {
+  static const int KMAP[5] = { -1, dr_dag_node_kind_create_task, dr_dag_node_kind_other, dr_dag_node_kind_wait_tasks, dr_dag_node_kind_end_task };
+  const sched_t * s = CASE.s; int seen[MAXIV] = { 0 };
+  for (long i = 0; i < G->n; i++) {
+    const dr_pi_dag_node * x = &G->T[i];
+    const char * sf = pi_str(G, x->info.start.pos.file_idx), * ef = pi_str(G, x->info.end.pos.file_idx);
+    const iv_t * first = NULL, * last = NULL;
+    for (int j = 0; j < s->niv; j++) { if (s->iv[j].sline == x->info.start.pos.line) first = &s->iv[j]; if (s->iv[j].eline == x->info.end.pos.line) last = &s->iv[j]; }
+    if (!first || !last) { found("content:unknown-position", NULL, "node %ld (kind %d) starts at line %ld and ends at line %ld; no instrumentation call was made from there", i, x->info.kind, x->info.start.pos.line, x->info.end.pos.line); return; }
+    if (strcmp(sf, FILEN[first->sline % CASE.nf]) || strcmp(ef, FILEN[last->eline % CASE.nf])) { found("content:file-name", NULL, "node %ld: files \"%s\" / \"%s\", the calls were made from \"%s\" / \"%s\"", i, sf, ef, FILEN[first->sline % CASE.nf], FILEN[last->eline % CASE.nf]); return; }
+    if ((long)x->info.start.t != first->t0 - T0) { found("content:start-clock", NULL, "node %ld starts at %ld, the interval beginning at that call started at %ld", i, (long)x->info.start.t, first->t0 - T0); return; }
+    if (x->info.kind < dr_dag_node_kind_section) {
+      if (first != last || seen[first->opid]++) { found("content:interval-identity", NULL, "interval node %ld pairs the start of interval %d with the end of interval %d%s", i, first->opid, last->opid, first == last ? " (seen twice)" : ""); return; }
+      if ((int)x->info.kind != KMAP[first->kind] || x->info.worker != first->worker || (long)x->info.end.t != first->t1 - T0 || (long)x->info.t_1 != first->t1 - first->t0 || (long)x->info.t_inf != first->t1 - first->t0)
+	{ found("content:interval", NULL, "interval node %ld: kind %d worker %d [%ld,%ld) t_1 %ld; executed kind %d worker %d [%ld,%ld)", i, x->info.kind, x->info.worker, (long)x->info.start.t, (long)x->info.end.t, (long)x->info.t_1,
+		KMAP[first->kind], first->worker, first->t0 - T0, first->t1 - T0); return; }
+    } else if ((long)x->info.end.t < last->t1 - T0) { found("content:end-clock", NULL, "node %ld (kind %d) ends at %ld, before its last interval ended (%ld)", i, x->info.kind, (long)x->info.end.t, last->t1 - T0); return; }
+  }
+}
+
+static void free_pi(dr_pi_dag * G) { free(G->T); free(G->E); free(G->S); }
+
+static const char * const AUX_NAMES[4] = { "cases whose DAG bytes equal an earlier setting's (not re-checked)", "distinct DAGs pushed through the file checks", "conversions", "converted DAGs written and read back" };
+static unsigned long long SEEN[128]; static int NSEEN;
+/* More than one file name: with the first timing only; on the no-steal schedule under every record-time setting
+   (which names survive contraction), on single-steal schedules under the two extreme settings. */
+static int component_skip(int nf, int oi) {
+  if (nf == 1) return 0;
+  if (CASE.tmi != 0 || CASE.s->nsteal > 1) return 1;
+  if (CASE.s->nsteal == 0) return 0;
+  const ropt_t * o = &OPTS[oi];
+  return !(o->cc == 0 && o->nct == 0 && o->umin == 0 && (o->cmax == 0 || o->cmax == CM_INF));
+}
+
+static void component_case(void) {
+  char cls[100], extra[80];
+  if (!GS.root) { found("roundtrip:no-root", NULL, "GS.root is null after dr_stop()"); return; }
+  dr_pi_dag G0[1];
+  dr_make_pi_dag(G0, GS.root, GS.start_clock);
+  if (CASE.oi == 0) NSEEN = 0;
+  unsigned long long h = pi_hash(G0);
+  for (int i = 0; i < NSEEN; i++) if (SEEN[i] == h) { SLOT->aux[0]++; free_pi(G0); return; }
+  if (NSEEN < 128) SEEN[NSEEN++] = h;
+  SLOT->aux[1]++;
+
+  char fn[260]; snprintf(fn, sizeof fn, "%s.dag", SCRATCH);
+  dr_dump_();
+  size_t fsz;
+  dr_pi_dag * G1 = roundtrip(G0, fn, "dumped", NULL, &fsz);
+  if (!G1) { unlink(fn); free_pi(G0); return; }
+  if (CASE.verbose) {
+    printf("dumped DAG: n=%ld m=%ld strings=%ld\n", G1->n, G1->m, G1->S->n);
+    for (long i = 0; i < G1->n; i++) { const dr_pi_dag_node * x = &G1->T[i];
+      printf("  T[%ld] %-11s w%-2d [%llu,%llu) t_1=%llu t_inf=%llu edges[%ld,%ld) ", i, dr_dag_node_kind_to_str(x->info.kind), x->info.worker, x->info.start.t, x->info.end.t, x->info.t_1, x->info.t_inf, x->edges_begin, x->edges_end);
+      if (x->info.kind == dr_dag_node_kind_create_task) printf("child +%ld", x->child_offset); else if (x->info.kind >= dr_dag_node_kind_section) printf("sub [+%ld,+%ld)", x->subgraphs_begin_offset, x->subgraphs_end_offset);
+      printf("  %s:%ld - %s:%ld\n", pi_str(G1, x->info.start.pos.file_idx), x->info.start.pos.line, pi_str(G1, x->info.end.pos.file_idx), x->info.end.pos.line); }
+    for (long j = 0; j < G1->m; j++) printf("  E[%ld] %ld -> %ld %s\n", j, G1->E[j].u, G1->E[j].v, dr_dag_edge_kind_to_str(G1->E[j].kind));
+  }
+  if (validate(G1, "dumped", NULL)) {
+    totals_t t1; pi_totals(G1, &t1);
+    if (!t1.ok) found("structure:dumped:edge-cycle", NULL, "the explicit edges contain a cycle");
+    /* the file against the execution (edge totals are C18's subject and are not repeated here) */
+    const oracle_t * o = CASE.o;
+    if (t1.work != o->work || t1.root_work != o->work) found("content:work", NULL, "work summed over the file's leaves = %ld, root t_1 = %ld, executed %ld", t1.work, t1.root_work, o->work);
+    if (t1.ok && (t1.crit != o->crit || t1.root_crit != o->crit)) found("content:critical-path", NULL, "heaviest path along the file's edges = %ld, root t_inf = %ld, executed %ld", t1.crit, t1.root_crit, o->crit);
+    for (int k = 0; k < 4; k++) if (t1.nodes[k] != o->nodes[k] || t1.root_nodes[k] != o->nodes[k]) found("content:node-count", NULL, "node kind %d: %ld over leaves, %ld in the root summary, executed %ld", k, t1.nodes[k], t1.root_nodes[k], o->nodes[k]);
+    content(G1);
+    chronological(G1, "dumped", NULL);
+    /* conversion */
+    unsigned long long seen2[20]; int nseen2 = 0;
+    dr_options saved = GS.opts;
+    for (int v = 0; v < NCONV; v++) {
+      dr_options co = saved; co.collapse_max = CONV[v].cmax; co.uncollapse_min = CONV[v].umin; co.collapse_max_count = CONV[v].cc; co.shrink = 1;
+      dr_opts_init(&co);
+      char cm[24]; if (CONV[v].cmax == CM_INF) strcpy(cm, "2^60"); else snprintf(cm, sizeof cm, "%llu", CONV[v].cmax);
+      snprintf(extra, sizeof extra, " V=cm%s,um%llu,cc%ld", cm, CONV[v].umin, CONV[v].cc);
+      dr_pi_dag G2[1];
+      dr_copy_pi_dag(G2, G1);
+      SLOT->aux[2]++;
+      /* a conversion whose output has the very bytes of its input, or of an earlier conversion of this DAG, has been judged already */
+      unsigned long long h2 = pi_hash(G2); int dup = h2 == h;
+      for (int i = 0; i < nseen2; i++) if (seen2[i] == h2) dup = 1;
+      if (CASE.verbose) printf("converted%s: n=%ld m=%ld strings=%ld%s\n", extra, G2->n, G2->m, G2->S->n, dup ? "  (same bytes as before)" : "");
+      if (dup) { free_pi(G2); continue; }
+      seen2[nseen2++] = h2;
+      if (validate(G2, "converted", extra)) {
+	totals_t t2; pi_totals(G2, &t2);
+	if (!t2.ok) found("structure:converted:edge-cycle", extra, "the explicit edges contain a cycle");
+	if (t2.work != t1.work) found("shrink-totals:work", extra, "work over leaves = %ld after conversion, %ld before", t2.work, t1.work);
+	if (t2.ok && t1.ok && t2.crit != t1.crit) found("shrink-totals:critical_path", extra, "heaviest path = %ld after conversion, %ld before", t2.crit, t1.crit);
+	if (t2.root_work != t1.root_work || t2.root_crit != t1.root_crit) found("shrink-totals:root-summary", extra, "root t_1/t_inf = %ld/%ld after conversion, %ld/%ld before", t2.root_work, t2.root_crit, t1.root_work, t1.root_crit);
+	static const char * const NKN[4] = { "create_task", "wait_tasks", "other", "end_task" };
+	for (int k = 0; k < 4; k++) if (t2.nodes[k] != t1.nodes[k]) { snprintf(cls, sizeof cls, "shrink-totals:node:%s", NKN[k]); found(cls, extra, "%s nodes: %ld after conversion, %ld before", NKN[k], t2.nodes[k], t1.nodes[k]); }
+	for (int k = 0; k < EK_MAX; k++) if (t2.edges[k] != t1.edges[k]) { snprintf(cls, sizeof cls, "shrink-totals:edge:%s", EKN[k]); found(cls, extra, "%s edges (explicit + summarised): %ld after conversion, %ld before", EKN[k], t2.edges[k], t1.edges[k]); }
+	chronological(G2, "converted", extra);
+	{
+	  char fn2[260]; size_t fsz2; snprintf(fn2, sizeof fn2, "%s-conv", SCRATCH);
+	  co.dag_file_prefix = fn2; co.dag_file_yes = 1; dr_opts_init(&co);
+	  dr_gen_pi_dag(G2);
+	  snprintf(fn2, sizeof fn2, "%s-conv.dag", SCRATCH);
+	  dr_pi_dag * R2 = roundtrip(G2, fn2, "converted", extra, &fsz2);
+	  if (R2) unread_dag(R2, fsz2);
+	  unlink(fn2);
+	  SLOT->aux[3]++;
+	}
+      }
+      free_pi(G2);
+    }
+    dr_opts_init(&saved);
+  }
+  unread_dag(G1, fsz);
+  unlink(fn);
+  free_pi(G0);
+}
+
+int main(int argc, char ** argv) {
+  static const unsigned long long CM[3] = { 0, 5, CM_INF }, UM[2] = { 0, 5 }; static const long CC[3] = { 0, 3, 100 };
+  for (int a = 0; a < 3; a++) for (int b = 0; b < 2; b++) for (int c = 0; c < 3; c++) CONV[NCONV++] = (conv_t){ CM[a], UM[b], CC[c] };
+  WANT_STAT = 0; WANT_DAG = 1;
+  return dag_main(argc, argv, "C19", "c19", "E3 seqmc (serial multi-worker simulator driving the real recorder; dump / read / validate / replay / convert of every recorded DAG)",
+		  4, 4, "dump-read round trip, independent structural validation, chronological replay, conversion totals (18 conversion settings per distinct DAG)");
+}
